@@ -19,12 +19,12 @@ INFO = dict(
               'the sum of all amounts recorded for it. (b) Percentiles: real _SampleSet, _Downsample, CalculatePercentile and Aggregate over k '
               'symbolic real samples of one source: every reported percentile lies between the smallest and largest sample and percentiles are '
               'non-decreasing in the percentile rank; the reported mean lies in the same band.',
-  bounds={'quick': '<=3 updates with field values from a 2-value pool per field (symbolic), amounts any integer; <=4 samples; <=3 samples spread over symbolic gaps of up to 10 minutes on the low-resolution clock', 'thorough': '<=4 updates from a 3-value pool; <=5 samples'},
+  bounds={'quick': '<=3 updates with field values from a 2-value pool per field (symbolic), amounts any integer; <=4 samples; <=3 samples spread over symbolic gaps of up to 10 minutes on the low-resolution clock; 2 live metric holders (public VarzBase objects, possibly for equal sources) with 3 interleaved updates', 'thorough': '<=4 updates from a 3-value pool; <=5 samples; 3 holders with 4 updates'},
   outside=['reservoir down-sampling beyond 1000 samples per source (random replacement)', 'IEEE rounding of the percentile interpolation (exact reals, A2)'],
   stubs=['LOW_RESOLUTION_TIME_SOURCE: the module-level object as imported (constant clock)', 'random.random in scales.varz -> symbolic [0,1) (unused below the reservoir size)'],
   assumptions=['A2 exact reals for sample arithmetic'],
 )
-EXPECT_COVERS = ['samples-spread-over-minutes', 'equal-sources-merge', 'distinct-sources-split', 'gauge-overwrite', 'percentile-interpolated']
+EXPECT_COVERS = ['samples-spread-over-minutes', 'equal-sources-merge', 'distinct-sources-split', 'gauge-overwrite', 'percentile-interpolated', 'interleaved-holders']
 
 M_COUNTER = 'verif.counter'; M_GAUGE = 'verif.gauge'; M_RATE = 'verif.rate'; M_PCT = 'verif.latency'
 
@@ -36,6 +36,11 @@ def jobs(tier):
   for k in range(1, ku + 1):
     for kind in ('counter', 'rate', 'gauge'):
       js.append(dict(name='%s-u%d' % (kind, k), op=kind, k=k, pool=pool, cost=8 ** k, shards=1 if k < 3 else (8 if k == 3 else 32), shard_depth=6))
+  # through the public metric objects (VarzBase holders): several live holders, possibly for equal sources, updated in an
+  # interleaved order
+  nh, kh = (2, 3) if tier == 'quick' else (3, 4)
+  for kind in ('counter', 'rate', 'gauge'):
+    js.append(dict(name='%s-holders-h%d-u%d' % (kind, nh, kh), op=kind, k=kh, holders=nh, pool=pool, cost=8 ** kh, shards=8, shard_depth=6))
   for k in range(1, ks + 1):
     js.append(dict(name='percentile-s%d' % k, op='pct', k=k, cost=3 ** k))
   js.append(dict(name='source-eq-hash', op='eqhash', pool=pool, cost=1))
@@ -77,7 +82,21 @@ def make_body(job):
     if op in ('counter', 'rate', 'gauge'):
       k = job['k']; metric = {'counter': M_COUNTER, 'rate': M_RATE, 'gauge': M_GAUGE}[op]
       ups = []
-      for j in range(k):
+      if job.get('holders'):
+        class HolderVarz(varz_mod.VarzBase):
+          _VARZ_BASE_NAME = 'verif'
+          _VARZ = {'counter': varz_mod.Counter, 'rate': varz_mod.Rate, 'gauge': varz_mod.Gauge}
+        hs = []
+        for h in range(job['holders']):
+          f = fresh_fields(h, job['pool'])
+          hs.append((f, HolderVarz(Source(*f))))
+        for j in range(k):
+          f, holder = hs[choose('holder%d' % j, len(hs))]
+          amt = fresh_int('amount%d' % j, -10 ** 6, 10 ** 6)
+          ups.append((f, amt))
+          getattr(holder, op)(amt)
+        if len(set(id(f) for f, a in ups)) > 1: cover('interleaved-holders')
+      for j in range(k if not job.get('holders') else 0):
         f = fresh_fields(j, job['pool'])
         amt = fresh_int('amount%d' % j, -10 ** 6, 10 ** 6)
         ups.append((f, amt))
